@@ -88,7 +88,10 @@ class NestingDepthRule(MultiLanguageLintRule):
         """
         violations = []
         for func in functions:
-            max_depth, _line = analyzer.calculate_max_depth(func)
+            analyzer_depth, _line = analyzer.calculate_max_depth(func)
+            # The Python analyzer counts from 0 at the function body; the documented depth
+            # (and the TypeScript/Rust analyzers) count the function body as depth 1.
+            max_depth = analyzer_depth + 1
             if max_depth <= config.max_nesting_depth:
                 continue
 
